@@ -171,7 +171,7 @@ type c15Names struct {
 
 func c15StubNames() *c15Names {
 	n := &c15Names{hash: map[int]util.Uint160{0: {}}, group: map[int]*keys.PublicKey{}}
-	for i := 1; i <= 9; i++ {
+	for i := 1; i <= 10; i++ {
 		n.hash[i] = util.Uint160{0xa0, byte(i)}
 	}
 	n.group[1], n.group[2] = c16Key(0).PublicKey(), c16Key(1).PublicKey()
@@ -236,7 +236,7 @@ func (n *c15Names) signers(ss []c15Signer) []transaction.Signer {
 }
 
 // contract groups of the universe
-var c15Groups = map[int][]int{1: {1}, 2: {1, 2}, 3: {}, 7: {}}
+var c15Groups = map[int][]int{1: {1}, 2: {1, 2}, 3: {}, 10: {2}, 7: {}}
 
 // ---------- contexts ----------
 
@@ -251,8 +251,8 @@ func c15AllCtx() []c15Ctx {
 		out = append(out, c15Ctx{0, 9, true, rs})
 	}
 	for _, be := range []bool{true, false} {
-		for _, cur := range []int{1, 2, 3} {
-			for _, cal := range []int{0, 1, 2, 3, 9} {
+		for _, cur := range []int{1, 2, 3, 10} {
+			for _, cal := range []int{0, 1, 2, 3, 10, 9} {
 				for _, rs := range []bool{true, false} {
 					out = append(out, c15Ctx{cal, cur, be, rs})
 				}
@@ -466,7 +466,7 @@ func c15NewLive() (lv *c15Live, err error) {
 }
 
 func (lv *c15Live) run(co *caseOut, in c15LiveIn) {
-	n := &c15Names{hash: map[int]util.Uint160{0: {}, 4: lv.c.owner.ScriptHash(), 5: {5}, 6: {6}, 7: lv.gh},
+	n := &c15Names{hash: map[int]util.Uint160{0: {}, 4: lv.c.owner.ScriptHash(), 5: {5}, 6: {6}, 7: lv.gh, 10: {0xa0, 10}},
 		group: map[int]*keys.PublicKey{1: c16Key(0).PublicKey(), 2: c16Key(1).PublicKey()}}
 	for id, ct := range lv.x {
 		n.hash[id] = ct.Hash
@@ -548,10 +548,10 @@ func (lv *c15Live) run(co *caseOut, in c15LiveIn) {
 
 func c15Leaves() []*c15Cond {
 	l := []*c15Cond{{T: "bool", B: true}, {T: "bool", B: false}, {T: "cbe"}}
-	for _, h := range []int{1, 2, 3, 9} {
+	for _, h := range []int{1, 2, 3, 10, 9} {
 		l = append(l, &c15Cond{T: "sh", H: h})
 	}
-	for _, h := range []int{0, 1, 2, 3, 9} {
+	for _, h := range []int{0, 1, 2, 3, 10, 9} {
 		l = append(l, &c15Cond{T: "cbc", H: h})
 	}
 	for _, g := range []int{1, 2} {
@@ -641,9 +641,9 @@ func runC15(cmd string, args []string) error {
 	cf, fs := parseCommon(cmd, args)
 	fs.Parse(args)
 	co := newCaseOut(cf.out, "Harness.C15", "N",
-		"cond: one condition tree evaluated by the real Match in all 62 call contexts; scope: one signer list evaluated by the real CheckHashedWitness in all 62 contexts; "+
+		"cond: one condition tree evaluated by the real Match in all 98 call contexts; scope: one signer list evaluated by the real CheckHashedWitness in all 98 contexts; "+
 			"a cond/scope case is non-trivial when both answers (granted / refused) occur among the contexts; live: CheckWitness inside deployed contracts, non-trivial when it did not fault; distinct by Coq term")
-	co.shard = 150
+	co.shard = 600
 	names := c15StubNames()
 	real := c15NewReal()
 	var live *c15Live
@@ -706,8 +706,10 @@ func runC15(cmd string, args []string) error {
 	fam := c15RuleFamily()
 	if cmd == "c15" {
 		// every tree of height <= 2 (unary Not/And/Or and binary And/Or over the 16 leaves), and every unary wrapper of those
-		for _, c := range h2 {
-			c15RunCond(co, names, c15CondIn{c})
+		if thorough { // in quick these trees go through the real path only (below)
+			for _, c := range h2 {
+				c15RunCond(co, names, c15CondIn{c})
+			}
 		}
 		for _, c := range c15Wrap(h2, false) {
 			c15RunCond(co, names, c15CondIn{c})
@@ -739,6 +741,81 @@ func runC15(cmd string, args []string) error {
 				}
 			}
 		}
+		// ---- condition trees and rule lists through the REAL path: runtime.CheckHashedWitness with a Rules signer, so that
+		// Match runs against the real scopeContext (GetCalling/CurrentScriptHash, Calling/CurrentScriptHasGroup,
+		// IsCalledByEntry) on the constructed invocation stacks ----
+		ruleCase := func(rules ...c15Rule) {
+			c15RunScope(co, real, c15ScopeIn{Ops: []c15Signer{{Acct: 5, Scopes: 64, Rules: rules}}, H: 5})
+		}
+		// every tree of height <= 2 (binary And/Or in both operand orders) as a single Allow rule and as Deny-then-Allow-all
+		T := &c15Cond{T: "bool", B: true}
+		for _, c := range h2 {
+			ruleCase(c15Rule{true, c})
+			ruleCase(c15Rule{false, c}, c15Rule{true, T})
+		}
+		// every tree that mentions both a current-side and a calling-side group condition together with a third operand,
+		// in all operand orders (a defect that lets one group lookup decide the other shows in some order)
+		not := func(c *c15Cond) *c15Cond { return &c15Cond{T: "not", C: c} }
+		var curSide, calSide []*c15Cond
+		for _, g := range []int{1, 2} {
+			curSide = append(curSide, &c15Cond{T: "g", G: g}, not(&c15Cond{T: "g", G: g}))
+			calSide = append(calSide, &c15Cond{T: "cbg", G: g}, not(&c15Cond{T: "cbg", G: g}))
+		}
+		third := []*c15Cond{{T: "cbe"}, {T: "sh", H: 2}, {T: "cbc", H: 1}, T, {T: "bool", B: false}}
+		orders := [][3]int{{0, 1, 2}, {0, 2, 1}, {1, 0, 2}, {1, 2, 0}, {2, 0, 1}, {2, 1, 0}}
+		for _, op := range []string{"and", "or"} {
+			for _, a := range curSide {
+				for _, b := range calSide {
+					for _, o := range [][2]*c15Cond{{a, b}, {b, a}} {
+						ruleCase(c15Rule{true, not(&c15Cond{T: op, L: []*c15Cond{o[0], o[1]}})})
+					}
+					for _, c := range third {
+						xs := [3]*c15Cond{a, b, c}
+						for _, o := range orders {
+							ruleCase(c15Rule{true, &c15Cond{T: op, L: []*c15Cond{xs[o[0]], xs[o[1]], xs[o[2]]}}})
+						}
+					}
+				}
+			}
+		}
+		// rule lists of length 2 and 3 with Allow/Deny over the group-relevant conditions: the lookups of one rule must
+		// not influence the next 
+		rs := []*c15Cond{{T: "g", G: 1}, {T: "g", G: 2}, {T: "cbg", G: 1}, {T: "cbg", G: 2}, not(&c15Cond{T: "g", G: 2}), not(&c15Cond{T: "cbg", G: 1}), {T: "cbe"}, T}
+		var rl []c15Rule
+		for _, c := range rs {
+			rl = append(rl, c15Rule{true, c}, c15Rule{false, c})
+		}
+		for _, r1 := range rl {
+			for _, r2 := range rl {
+				ruleCase(r1, r2)
+			}
+		}
+		for _, r1 := range rl {
+			for _, r2 := range rl {
+				for _, r3 := range rl {
+					if !thorough { // quick: the lists that ask about both the current and the calling contract's groups
+						cur, cal := false, false
+						for _, x := range []c15Rule{r1, r2, r3} {
+							t := x.Cond.T
+							if t == "not" {
+								t = x.Cond.C.T
+							}
+							cur = cur || t == "g"
+							cal = cal || t == "cbg"
+						}
+						if !cur || !cal {
+							continue
+						}
+					}
+					ruleCase(r1, r2, r3)
+				}
+			}
+		}
+		if thorough { // the unary wrappers (height 3) through the real path too (quick: stub context only)
+			for _, c := range c15Wrap(h2, false) {
+				ruleCase(c15Rule{true, c})
+			}
+		}
 		// the signer-list shapes: no signer; account absent; account = a contract (caller shortcut); duplicates (first wins)
 		perm := c15Signer{Acct: 5, Scopes: 128}
 		none := c15Signer{Acct: 5, Scopes: 0}
@@ -750,8 +827,9 @@ func runC15(cmd string, args []string) error {
 			}
 		}
 		co.extra["exhaustive"] = true
-		co.extra["x_universe"] = "62 call contexts (entry; called-by-entry and deeper: current in 3 contracts x calling in {zero,3 contracts,entry} x ReadStates yes/no); " +
-			"cond: all trees of height <= 2 over 16 leaves with Not and unary/binary And/Or, and all unary wrappers of those (height 3); " +
+		co.extra["x_universe"] = "98 call contexts (entry; called-by-entry and deeper: current in 4 contracts x calling in {zero,4 contracts,entry} x ReadStates yes/no; the contracts' groups are {1},{1,2},{},{2}); " +
+			"cond (stub context): all trees of height <= 2 over 19 leaves with Not and unary/binary And/Or, and all unary wrappers of those (height 3); " +
+			"real path (CheckHashedWitness, Rules signer): all those trees of height <= 2 as Allow rule and as Deny rule followed by Allow-all; all And/Or of a current-side and a calling-side group condition (plain or negated) with a third operand in all 6 orders; all rule lists of length 2 over 16 group-relevant rules and all of length 3 that ask about both the current and the calling contract's groups; thorough: all lists of length 3, all unary wrappers (height 3) as Allow rule, and the height <= 2 trees through the stub context too; " +
 			"scope: all 16 combinations of the scope bits + Global x allowed-contract subsets x allowed-group subsets x 12 rule lists; 54 signer-list shapes"
 		return co.finish()
 	}
